@@ -271,7 +271,10 @@ def validate(number, separator=''):
     provided number and for encoding the returned number.
     """
     try:
-        return encode(info(number, separator), separator)
+        data = info(number, separator)
+        if not data:
+            raise InvalidFormat()  # no application identifiers found
+        return encode(data, separator)
     except ValidationError:
         raise
     except Exception:  # noqa: B902
